@@ -1,6 +1,7 @@
 import GB.C07.Proofs
 import GB.C07.Glue
 import GB.C07.WireProofs
+import GB.C07.RespWireProofs
 import GB.Generated.Facts
 /-
   C07 — property theorems.  The model (GB/C07/Model.lean) is grpcadapter/metadata.go,
@@ -544,4 +545,56 @@ theorem C07_wire_examples :
     -- "x-a: 1\r\n\r\nbroken\r\n" and the empty frame
     readMDPairs [120,45,97,58,32,49,13,10,13,10,98,114,111,107,101,110,13,10] = some [([120,45,97], [49])] ∧
     readMDPairs [] = some [] := by
+  decide
+
+
+/-! ### response header / HTTP trailer VALUES on the transcoded-HTTP and gRPC-Web entry points (fix D40) -/
+
+/-- Binary response metadata is lossless on the HTTP carrier: for EVERY binary key and EVERY byte string the target sent
+    (NUL, CR LF, bytes >= 0x80, blanks at either end, empty), the bytes of the header / trailer line — `headerValues` of the
+    bridge followed by net/http's own rewriting of every value it writes — decode, with the client's `base64.RawStdEncoding`,
+    to exactly the target's bytes. -/
+theorem C07_resp_bin_recoverable (k v : Bytes) (hb : GB.C08.isBinKey k = true) :
+    GB.C07.b64dec false (GB.C07.respWireValue k v) [] = some v := by
+  simp only [GB.C07.respWireValue, GB.C07.bridgeHeaderValue, hb, ↓reduceIte, GB.C08.trailerValue]
+  rw [GB.C07.netHTTPValue_id _ (GB.C08.encodeRaw_printable v)]
+  exact GB.C08.b64raw_roundtrip v
+
+/-- ... and net/http changes nothing in it: what the bridge puts into `http.Header` for a binary key is what is on the wire,
+    and it consists of visible ASCII only (no CR, LF, NUL, blank or byte >= 0x80 for any parser to trip over). -/
+theorem C07_resp_bin_wire_form (k v : Bytes) (hb : GB.C08.isBinKey k = true) :
+    GB.C07.respWireValue k v = GB.C08.encodeRaw v ∧ ∀ c ∈ GB.C07.respWireValue k v, 33 ≤ c ∧ c ≤ 126 := by
+  have h : GB.C07.respWireValue k v = GB.C08.encodeRaw v := by
+    simp only [GB.C07.respWireValue, GB.C07.bridgeHeaderValue, hb, ↓reduceIte, GB.C08.trailerValue]
+    exact GB.C07.netHTTPValue_id _ (GB.C08.encodeRaw_printable v)
+  exact ⟨h, fun c hc => GB.C08.encodeRaw_printable v c (h ▸ hc)⟩
+
+/-- No value can add a line to the response head or to the trailer section, for EVERY key (binary or not) and EVERY value,
+    before and after the fix: this part IS guaranteed by net/http alone (CR and LF become SP before a value is written). -/
+theorem C07_resp_no_line_injection (k v : Bytes) :
+    (13 : UInt8) ∉ GB.C07.respWireValue k v ∧ (10 : UInt8) ∉ GB.C07.respWireValue k v ∧
+    (13 : UInt8) ∉ GB.C07.respWireValuePreFix k v ∧ (10 : UInt8) ∉ GB.C07.respWireValuePreFix k v :=
+  ⟨(GB.C07.netHTTPValue_clean _).1, (GB.C07.netHTTPValue_clean _).2, (GB.C07.netHTTPValue_clean _).1, (GB.C07.netHTTPValue_clean _).2⟩
+
+/-- Text values the carrier can hold arrive unchanged: a value of visible ASCII under a non-binary key is written as it is. -/
+theorem C07_resp_text_unchanged (k v : Bytes) (hb : GB.C08.isBinKey k = false) (hv : ∀ c ∈ v, 33 ≤ c ∧ c ≤ 126) :
+    GB.C07.respWireValue k v = v := by
+  simp only [GB.C07.respWireValue, GB.C07.bridgeHeaderValue, hb, Bool.false_eq_true, ↓reduceIte]
+  exact GB.C07.netHTTPValue_id v hv
+
+/-- Witness of the behaviour before the fix (kernel-evaluated; the same inputs are replayed on the real code by the `rbin`
+    stream): under `x-bin` the distinct target values "a\r\nb" / "a  b", "\r\n" / "" and "v " / "v" gave the same header
+    line, so no client could tell them apart, and NUL / 0xff went onto the wire as they were (Go's own client rejects such a
+    response); after the fix the lines are `YQ0KYg` / `YSAgYg`, `DQo` / (empty), `diA` / `dg`, `AP8`. -/
+theorem C07_resp_bin_prefix_lossy :
+    let k : Bytes := [120, 45, 98, 105, 110]
+    GB.C07.respWireValuePreFix k [97, 13, 10, 98] = GB.C07.respWireValuePreFix k [97, 32, 32, 98] ∧
+    GB.C07.respWireValuePreFix k [13, 10] = GB.C07.respWireValuePreFix k [] ∧
+    GB.C07.respWireValuePreFix k [118, 32] = GB.C07.respWireValuePreFix k [118] ∧
+    GB.C07.respWireValuePreFix k [0, 255] = [0, 255] ∧
+    GB.C07.respWireValue k [97, 13, 10, 98] = [89, 81, 48, 75, 89, 103] ∧
+    GB.C07.respWireValue k [97, 32, 32, 98] = [89, 83, 65, 103, 89, 103] ∧
+    GB.C07.respWireValue k [13, 10] = [68, 81, 111] ∧ GB.C07.respWireValue k [] = [] ∧
+    GB.C07.respWireValue k [118, 32] = [100, 105, 65] ∧ GB.C07.respWireValue k [118] = [100, 103] ∧
+    GB.C07.respWireValue k [0, 255] = [65, 80, 56] := by
   decide
